@@ -14,6 +14,7 @@ from pyvc.values import Sym, Lane, Arr2, State
 from pyvc.interp import LoopInv, PyList
 from . import gm, uni, vine
 
+_REPLAY_CACHE = {}
 LEVEL = 'proof'
 TRUSTED = ['select_copula (C11), pair-copula h / density / inverse h (C06-C08) and GaussianKDE cdf / ppf (C03) enter as '
            'contracts: deterministic functions of their arguments, h and inverse h in [0,1], density >= 0',
@@ -139,6 +140,17 @@ def spec_likelihood(trees, u):
 
 
 def native_replay(kind, vt, d):
+    """the native driver depends only on its arguments: run it once per group of obligations"""
+    inner = _native_replay_uncached(kind, vt, d)
+
+    def replay(env, _key=('native_replay', kind, vt, d)):
+        if _key not in _REPLAY_CACHE:
+            _REPLAY_CACHE[_key] = inner(env)
+        return _REPLAY_CACHE[_key]
+    return replay
+
+
+def _native_replay_uncached(kind, vt, d):
     def replay(env):
         import warnings
         import numpy as np
@@ -279,6 +291,17 @@ ONE_M_EPS = 1 - EPS
 
 
 def sample_replay(vt, d):
+    """the native driver depends only on its arguments: run it once per group of obligations"""
+    inner = _sample_replay_uncached(vt, d)
+
+    def replay(env, _key=('sample_replay', vt, d)):
+        if _key not in _REPLAY_CACHE:
+            _REPLAY_CACHE[_key] = inner(env)
+        return _REPLAY_CACHE[_key]
+    return replay
+
+
+def _sample_replay_uncached(vt, d):
     def replay(env):
         import warnings
         import numpy as np
